@@ -113,7 +113,18 @@ func cmdCheck(args []string) int {
 		}
 		if c.External || c.Trusted {
 			trusted = append(trusted, k)
+			for _, cr := range c.Commutes {
+				units = append(units, p.encodeCommute(c, cr.Loop, cr.Label))
+			}
 			continue
+		}
+		if len(c.Commutes) > 0 {
+			for _, cr := range c.Commutes {
+				units = append(units, p.encodeCommute(c, cr.Loop, cr.Label))
+			}
+			if len(c.Ensures)+len(c.Requires)+len(c.Invs) == 0 && !c.Safety {
+				continue
+			}
 		}
 		units = append(units, p.encodeUnit(c))
 	}
@@ -233,12 +244,12 @@ func cmdCheck(args []string) int {
 	// claimed obligations that disappeared
 	if !*writeClaims {
 		// vacuity guard: obligations named by contract labels (post / inv / frame) must still be generated;
-		// call-site and safety obligations are keyed by call ordinals and legitimately come and go with edits
+		// call-site, safety and per-component frame obligations are keyed by call ordinals / the unit's component universe and legitimately come and go with edits
 		for _, id := range claims.Claimed {
 			if _, ok := seen[id]; ok {
 				continue
 			}
-			if strings.Contains(id, "#pre[") || strings.Contains(id, "#safety[") || strings.Contains(id, "#overflow[") || strings.Contains(id, "@") {
+			if strings.Contains(id, "#pre[") || strings.Contains(id, "#safety[") || strings.Contains(id, "#overflow[") || strings.Contains(id, "#frame[") || strings.Contains(id, "@") {
 				continue
 			}
 			viols = append(viols, viol{id: id, why: "claimed obligation is no longer generated (contract unbound or code path removed)"})
